@@ -1,6 +1,8 @@
 #include "hx.h"
 void engineCache(const std::vector<std::string> &, const std::vector<std::string> &);
+void engineCodec(const std::vector<std::string> &, const std::vector<std::string> &);
 void registerAllEngines()
 {
     registerEngine("cache", engineCache);
+    registerEngine("codec", engineCodec);
 }
